@@ -143,6 +143,16 @@ static void roundtrip_case(const mon_args_t *a, long idx) {
   int n = (mode < 2) ? (int)(1 + (idx / 4) % 200) : gen_dim(&r, 200); /* every residue mod 64 and mod 8 */
   if (mode < 2 && rng_chance(&r, 1, 6)) n += 64 * rng_int(&r, 1, 12);
   int m = rng_chance(&r, 1, 3) ? rng_int(&r, 1, 3) : gen_dim(&r, a->maxdim);
+  /* "any matrix": images wider or taller than libpng's default limit of 1 000 000 pixels per side are matrices too */
+  if (mode < 2 && idx % 194 == 8) {
+    n = 1000001 + rng_int(&r, 0, 130);
+    m = rng_int(&r, 1, 2);
+    hx_tag("png_over_1e6");
+  } else if (mode < 2 && idx % 194 == 9) {
+    m = 1000001 + rng_int(&r, 0, 50);
+    n = rng_int(&r, 1, 3);
+    hx_tag("png_over_1e6");
+  }
   int pat = gen_pat(&r);
   rm_t *V = gen_mat(&r, m, n, pat);
   char fn[600], kp[96];
